@@ -73,6 +73,38 @@ def as_obj(tree):
     return jax.tree_util.tree_map(f, tree)
 
 
+def _real_key(term, roots):
+    """Rebuild the real jax key denoted by an abstract key term."""
+    if term in roots:
+        return roots[term]
+    if isinstance(term, tuple) and term:
+        if term[0] == "split":
+            parent = _real_key(term[1], roots)
+            return jax.random.split(parent, term[2])[term[3]]
+        if term[0] == "fold":
+            return jax.random.fold_in(_real_key(term[1], roots), int(term[2]))
+        if term[0] == "seed":
+            return jax.random.key(int(term[1]))
+        if term[0] == "k":
+            return jax.random.wrap_key_data(jnp.asarray(term[1], dtype=jnp.uint32))
+    raise V.Unsupported(f"cannot rebuild key {term}")
+
+
+class Noise:
+    """View on the abstract noise of one interpretation: kind -> list of object arrays
+    (in creation order).  In replay mode the arrays hold the real draws."""
+
+    def __init__(self, entries):
+        self.entries = entries  # list of (kind, keyterm, shape, extra, array)
+
+    def of(self, kind):
+        return [S.SA(a) for (k, _, _, _, a) in self.entries if k == kind]
+
+
+def noise_from_ctx(ctx):
+    return Noise([(k[0], k[1], k[2], k[3], a) for k, a in ctx.noise.items()])
+
+
 class E1:
     """One traced real function with symbolic inputs, ready for obligations."""
 
@@ -86,6 +118,7 @@ class E1:
             self.ins = overrides(self.ins)
         self.outs, self.ctx = self.tr.run(self.ins)
         self.hyps = list(hyps) + list(self.ctx.assumptions)
+        self.noise = noise_from_ctx(self.ctx)
         self.trace_s = time.time() - t0
         rep.functions.append({"site": site, "jaxpr_eqns": self.tr.n_eqns, "interpreted_eqns": self.ctx.n_eqns,
                               "primitives": sorted(self.ctx.prims), "in_shapes": [list(np.shape(l)) for l in self.tr.in_leaves]})
@@ -110,7 +143,8 @@ class E1:
         cases: optional list of (label, hypothesis) - the obligation is proved per case and a
         separate obligation shows the cases are exhaustive.  split: prove each element of an SA
         goal as its own query."""
-        goal = pred(self.ins, self.outs)
+        pred = self._arity3(pred)
+        goal = pred(self.ins, self.outs, self.noise)
         hyps = self.hyps + [V.to_z3(h.all() if isinstance(h, S.SA) else h) for h in extra_hyps]
         full = f"{self.site}:{name}"
         if split and isinstance(goal, S.SA):
@@ -148,6 +182,41 @@ class E1:
                 result = None
         return result
 
+    @staticmethod
+    def _arity3(pred):
+        import inspect
+        n = len([p for p in inspect.signature(pred).parameters.values() if p.default is inspect.Parameter.empty])
+        if n >= 3:
+            return pred
+        return lambda i, o, nz: pred(i, o)
+
+    def _real_noise(self, conc_args):
+        """Real draws for every abstract noise array, from the real keys of the replay inputs."""
+        if not self.noise.entries:
+            return self.noise
+        roots = {}
+        leaves = jax.tree_util.tree_leaves(conc_args)
+        for path, leaf in zip(self.tr.in_paths, leaves):
+            if hasattr(leaf, "dtype") and _is_key_dtype(leaf.dtype):
+                for idx in np.ndindex(*leaf.shape) if leaf.shape else [()]:
+                    roots[(path,) + idx] = leaf[idx]
+        out = []
+        for (kind, term, shape, extra, arr) in self.noise.entries:
+            k = _real_key(term, roots)
+            if kind == "normal":
+                r = jax.random.normal(k, shape)
+            elif kind == "u01":
+                r = jax.random.uniform(k, shape)
+            elif kind == "gumbel":
+                r = jax.random.gumbel(k, shape)
+            elif kind == "tnormal":
+                lo, hi = (float(eval(e, {"Fraction": Fraction})[0]) for e in extra)
+                r = jax.random.truncated_normal(k, lo, hi, shape)
+            else:
+                raise V.Unsupported(f"replay of noise kind {kind}")
+            out.append((kind, term, shape, extra, V.obj_array(np.asarray(r))))
+        return Noise(out)
+
     def _replay(self, name, full, pred, hyps, goal, q, site=None):
         # sat: polish the model, replay on the real code
         model = self._polish(hyps, goal) or q.model
@@ -156,7 +225,7 @@ class E1:
             S.MODE.numeric, S.MODE.tol = True, TOL
             try:
                 real_outs = self.fn(*conc_args)
-                ok = pred(as_obj(conc_args), as_obj(real_outs))
+                ok = pred(as_obj(conc_args), as_obj(real_outs), self._real_noise(conc_args))
                 if isinstance(ok, S.SA):
                     ok = ok.all()
                 elif isinstance(ok, (list, tuple)):
